@@ -264,7 +264,14 @@ def c02_4(ctx):
             kinds = []
             for sd in sides:
                 ex = expand(fn, n.id, sd)
-                if isinstance(sd, ast.Call) and call_name(sd) == "xonly" and isinstance(sd.func, ast.Attribute):
+                at = origins(fn, n.id, sd)
+                if isinstance(sd, ast.Name) and ("call:xonly" in at or "attrname:x" in at):
+                    # the x-only value travels through a local: classify by where it comes from
+                    if ("attr:%s.s" % sig) in at and "op:Mult" in at:
+                        kinds.append("res")
+                    elif ("attr:%s.r" % sig) in at:
+                        kinds.append("R")
+                elif isinstance(sd, ast.Call) and call_name(sd) == "xonly" and isinstance(sd.func, ast.Attribute):
                     obj = sd.func.value
                     if dotted(expand(fn, n.id, obj)) == "%s.r" % sig:
                         kinds.append("R")
@@ -360,6 +367,9 @@ def c02_7(ctx):
         for n, c in sites:
             ex = expand(fn, n.id, c.args[0], depth=1) if isinstance(c.args[0], ast.Name) else c.args[0]
             terms = flatten_concat(ex)
+            # a term that travels through a local (`r_xonly = sig.r.xonly()`) is classified by its definition
+            ps_ = set(param_names(fn))
+            terms = [expand(fn, n.id, t, depth=4) if isinstance(t, ast.Name) and t.id not in ps_ else t for t in terms]
             roles = [rolefn(t, n.id) for t in terms]
             if roles == want:
                 res.append(ctx.ok(spec, "%s preimage is %s" % (hashname, " ‖ ".join(roles)), c, mod, key=key))
@@ -380,7 +390,7 @@ def c02_7(ctx):
             return "m"
         if isinstance(term, ast.Call) and call_name(term) == "xonly" and isinstance(term.func, ast.Attribute):
             obj = term.func.value
-            if dotted(obj) == "%s.r" % sigv:
+            if dotted(obj) == "%s.r" % sigv or dotted(expand(fnv, nid, obj, depth=3)) == "%s.r" % sigv:
                 return "R"
             at = origins(fnv, nid, obj)
             if "name:" + selfn in at and ("attr:%s.s" % sigv) not in at:
